@@ -324,6 +324,20 @@ fn foreign_archive(inp: &Value) -> Value {
     let _ = std::fs::remove_file(&path);
     let ty = inp["artifact_type"].as_str().unwrap().to_string();
     let r: anyhow::Result<()> = (|| {
+        if ty.is_empty() {
+            // an ordinary OCI image: config + one layer (carrying an OMMX layer media type), NO artifactType in the manifest
+            use ommx::ocipkg::image::ImageBuilder;
+            use ommx::ocipkg::oci_spec::image::{DescriptorBuilder, ImageManifestBuilder};
+            let mut archive = OciArchiveBuilder::new_unnamed(path.clone())?;
+            let (digest, size) = archive.add_blob(br#"{"architecture":"amd64","os":"linux","rootfs":{"type":"layers","diff_ids":[]}}"#)?;
+            let config = DescriptorBuilder::default().media_type(MediaType::ImageConfig).digest(digest.to_string()).size(size).build()?;
+            let (digest, size) = archive.add_blob(&v1::Instance::default().encode_to_vec())?;
+            let layer = DescriptorBuilder::default().media_type(media_types::v1_instance()).digest(digest.to_string()).size(size).build()?;
+            let manifest = ImageManifestBuilder::default().schema_version(2_u32).media_type(MediaType::ImageManifest)
+                .config(config).layers(vec![layer]).build()?;
+            archive.build(manifest)?;
+            return Ok(());
+        }
         let archive = OciArchiveBuilder::new_unnamed(path.clone())?;
         let mut b = OciArtifactBuilder::new(archive, MediaType::Other(ty))?;
         b.add_layer(media_types::v1_instance(), &v1::Instance::default().encode_to_vec(), HashMap::new())?;
